@@ -124,6 +124,10 @@ pub struct Req {
     /// server promises its pushes only after the response head and the first body bytes were queued
     #[serde(default)]
     pub push_late: bool,
+    /// client: having taken the final response head, wait this many yields and ask once more for interim
+    /// responses (there are none; what is queued on the stream must stay as it is), then read the body
+    #[serde(default)]
+    pub late_info: Option<usize>,
 }
 
 #[derive(Clone, Debug, Serialize, Deserialize)]
@@ -356,6 +360,7 @@ pub fn gen_pair(tapes: &[Vec<u32>], focus: Focus) -> PairCase {
             then_second: focus != Focus::Resets && t.chance(1, 6),
             abandon: false,
             push_late: false,
+            late_info: None,
         });
     }
     // some servers promise late (after the response head and first body bytes)
@@ -363,6 +368,9 @@ pub fn gen_pair(tapes: &[Vec<u32>], focus: Focus) -> PairCase {
         let r: &mut Req = r;
         if !r.pushes.is_empty() && !r.resp.chunks.is_empty() && t.chance(1, 3) {
             r.push_late = true;
+        }
+        if t.chance(1, 6) {
+            r.late_info = Some(t.below(40));
         }
     }
     // bound the number of DATA frames: with a window of w bytes a body of n bytes needs ≥ n/w frames
@@ -510,6 +518,7 @@ pub fn default_req(key: u32) -> Req {
         then_second: false,
         abandon: false,
         push_late: false,
+        late_info: None,
     }
 }
 
@@ -1092,12 +1101,28 @@ async fn client_request(sr: client::SendRequest<SegBuf>, r: Req, ctx: Ctx) {
             None => break,
         }
     }
-    match resp.await {
-        Ok(resp) => {
-            let (parts, body) = resp.into_parts();
+    match (&mut resp).await {
+        Ok(got) => {
+            let (parts, body) = got.into_parts();
             let mut f = vec![(":status".to_string(), parts.status.as_u16().to_string())];
             f.extend(fields_of(&parts.headers));
             log.push(Side::Client, key, Api::RecvHead { kind: "response", stream: sid, fields: f, eos: body.is_end_stream() });
+            if let Some(k) = r.late_info {
+                // (same task as the body reader: the waker this poll may register is the reader's own)
+                yield_n(k).await;
+                let late = poll_fn(|cx| Poll::Ready(resp.poll_informational(cx))).await;
+                match late {
+                    Poll::Ready(Some(Ok(i))) => {
+                        let mut f = vec![(":status".to_string(), i.status().as_u16().to_string())];
+                        f.extend(fields_of(i.headers()));
+                        log.push(Side::Client, key, Api::RecvHead { kind: "interim", stream: sid, fields: f, eos: false });
+                    }
+                    Poll::Ready(Some(Err(e))) => log.push(Side::Client, key, Api::ConnOp { op: format!("late poll_informational: error {}", err_info(&e).text) }),
+                    Poll::Ready(None) => log.push(Side::Client, key, Api::ConnOp { op: "late poll_informational: none".into() }),
+                    Poll::Pending => log.push(Side::Client, key, Api::ConnOp { op: "late poll_informational: pending".into() }),
+                }
+            }
+            drop(resp);
             read_body(body, r.resp_reader.clone(), key, Side::Client, log).await;
         }
         Err(e) => log.push(Side::Client, key, Api::RecvErr { op: "response", err: err_info(&e) }),
